@@ -246,3 +246,13 @@ package callbacks
 //@   not-in callbacks.Create$1 callbacks.Update$1 callbacks.Delete$1 callbacks.Query callbacks.RawExec callbacks.RowQuery gorm.(*processor).Execute gorm.(*DB).Save gorm.(*DB).Row gorm.(*DB).Rows
 //@   min-sites 0
 //@   assert not-read-while-building-a-statement: false [C19]
+
+//@ # ---------- C03: Create from a slice of maps keeps every value in its own row and column ----------
+//@ # Maps may have different key sets: a value is stored at the position of its map in the slice (row) and, in the
+//@ # second pass, at the position of its column; rows without the key keep NULL. Nothing is ever appended.
+//@ site map-values-stay-in-their-row
+//@   match storeelem interface{}
+//@   in callbacks.ConvertSliceOfMapToValuesForCreate
+//@   min-sites 2
+//@   assert stored-at-the-loop-position: arg1 == idx [C03]
+//@   assert the-value-read-for-that-position: arg0 == v [C03]
